@@ -69,6 +69,16 @@ class FileSplicer:
         if not os.path.exists(self.path):
             raise SpliceError('lost anchor: file %s does not exist' % fs.path)
         self.text = open(self.path).read()
+        # N11: the repository's own macro_rules! macros named by `expandmacros` are expanded first (tools/macroexp.py)
+        self.n11 = 0
+        for d in fs.dirs:
+            if d.word == 'expandmacros':
+                import macroexp
+                try:
+                    self.text, n_ = macroexp.expand_all(self.text, d.args)
+                except macroexp.MacroError as e:
+                    raise SpliceError('unsupported: N11 macro expansion in %s: %s' % (fs.path, e))
+                self.n11 += n_
         self.src = Src(self.text)
         self.items = parse_items(self.src, 0, self.src.n())
         self.ed = Edits()
@@ -885,7 +895,8 @@ class FileSplicer:
 
     def strmatch(self, it: Item, applied):
         """N7: `match E { "a" => X, "b" | "c" => Y, _ => Z }` on str -> if/else chain (only for matches all of whose
-        non-wildcard arms are string literals)."""
+        non-wildcard arms are string literals). Only the `match E {` header, the arm patterns and the arm separators are
+        edited; arm bodies stay where they are, so other rewrites inside them compose."""
         src = self.src
         k = it.body_open + 1
         while k < it.body_close:
@@ -897,25 +908,28 @@ class FileSplicer:
                 mo, mc = j, src.match(j)
                 arms = self.match_arms(mo, mc)
                 if arms and all(a['lits'] is not None or a['wild'] for a in arms) and any(a['lits'] for a in arms):
+                    if not any(a['wild'] for a in arms):
+                        raise SpliceError('unsupported: str match without wildcard arm')
                     scrut = src.text_of(k + 1, mo)
-                    out = []
+                    self.ed.replace(src.t(k).start, src.t(mo).end, '{ let vx_s = %s; ' % scrut)
                     first = True
-                    has_wild = False
                     for a in arms:
                         if a['wild']:
-                            has_wild = True
                             bind = a['bind']
                             pre = ('let %s = vx_s; ' % bind) if bind and bind != '_' else ''
-                            out.append(' else { %s%s }' % (pre, a['body']))
+                            head = ' else { %s' % pre
                         else:
                             cond = ' || '.join('vx_s == %s' % l for l in a['lits'])
-                            out.append('%sif %s { %s }' % ('' if first else ' else ', cond, a['body']))
+                            head = '%sif %s { ' % ('' if first else ' else ', cond)
                             first = False
-                    if not has_wild:
-                        raise SpliceError('unsupported: str match without wildcard arm')
-                    self.ed.replace(src.t(k).start, src.t(mc).end, '{ let vx_s = %s; %s }' % (scrut, ''.join(out)))
+                        # pattern and `=>` -> head ; after the body -> `}` ; the separating comma goes
+                        self.ed.replace(src.t(a['ps']).start, src.t(a['arrow'] + 1).end, head)
+                        self.ed.insert(src.t(a['body_end'] - 1).end, ' }')
+                        if a['comma'] is not None:
+                            self.ed.replace(src.t(a['comma']).start, src.t(a['comma']).end, '')
                     applied.append('N7')
-                    k = mc + 1; continue
+                    # nested matches inside the arms are handled too
+                    k = mo + 1; continue
             k += 1
 
     def match_arms(self, mo, mc):
@@ -929,16 +943,20 @@ class FileSplicer:
                 if k >= mc: return None
             pe = k
             bs = k + 2
+            comma = None
             if src.is_p(bs, '{'):
                 be = src.match(bs)
                 body = src.text_of(bs + 1, be)
+                body_end = be + 1
                 k = be + 1
-                if src.is_p(k, ','): k += 1
+                if src.is_p(k, ','): comma = k; k += 1
             else:
                 e = bs
                 while e < mc and not src.is_p(e, ','):
                     e = src.skip_group(e)
                 body = src.text_of(bs, e)
+                body_end = e
+                if e < mc: comma = e
                 k = e + 1
             # classify the pattern
             toks = [src.t(q) for q in range(ps, pe)]
@@ -951,7 +969,8 @@ class FileSplicer:
                 else:
                     if not (t.kind == 'punct' and t.text == '|'): ok = False
             wild = len(toks) == 1 and toks[0].kind == 'ident' and (toks[0].text == '_' or toks[0].text[0].islower())
-            arms.append({'lits': lits if ok and lits else None, 'wild': wild, 'bind': toks[0].text if wild else None, 'body': body})
+            arms.append({'lits': lits if ok and lits else None, 'wild': wild, 'bind': toks[0].text if wild else None, 'body': body,
+                         'ps': ps, 'arrow': pe, 'body_end': body_end, 'comma': comma})
         return arms
 
     # ---------------------------------------------------------------- file level
@@ -1002,6 +1021,29 @@ class FileSplicer:
                             ix = next(i_ for i_ in range(len(ka)) if ka[i_] != kb[i_])
                             body.append('    assert("%s"@[%d] != "%s"@[%d]);' % (ka, ix, kb, ix))
                 txt = 'pub proof fn %s()\n    ensures\n        %s,\n{\n%s\n}\n' % (name, ',\n        '.join(ens), '\n'.join(body))
+                appends.append('verus!{\n' + txt + '}\n')
+            elif d.word == 'iclemma':
+                # generated proof: the given string literals are pairwise different even ignoring ASCII case
+                name = d.args[0]; keys = d.args[1:]
+                body = ['    ' + ' '.join('reveal_strlit("%s");' % k for k in keys)]
+                body.append('    ' + ' '.join('assert("%s"@.len() == %d);' % (k, len(k)) for k in keys))
+                ens = []
+                for a_ in range(len(keys)):
+                    for b_ in range(a_ + 1, len(keys)):
+                        ka, kb = keys[a_], keys[b_]
+                        ens.append('!eq_ic("%s"@, "%s"@)' % (ka, kb)); ens.append('!eq_ic("%s"@, "%s"@)' % (kb, ka))
+                        if len(ka) == len(kb):
+                            ix = next(i_ for i_ in range(len(ka)) if ka[i_].lower() != kb[i_].lower())
+                            body.append('    assert(ascii_lower("%s"@[%d]) != ascii_lower("%s"@[%d]));' % (ka, ix, kb, ix))
+                txt = 'pub proof fn %s()\n    ensures\n        %s,\n{\n%s\n}\n' % (name, ',\n        '.join(ens), '\n'.join(body))
+                appends.append('verus!{\n' + txt + '}\n')
+            elif d.word == 'alllemma':
+                # generated proof: SEQ_PRED holds of every literal, from CHAR_PRED of each of its characters
+                name, seqp, chp = d.args[0], d.args[1], d.args[2]; keys = d.args[3:]
+                body = []
+                for k in keys:
+                    body.append('    reveal_strlit("%s"); assert("%s"@.len() == %d); %s assert(%s("%s"@));' % (k, k, len(k), ' '.join('assert(%s("%s"@[%d]));' % (chp, k, i_) for i_ in range(len(k))), seqp, k))
+                txt = 'pub proof fn %s()\n    ensures\n        %s,\n{\n%s\n}\n' % (name, ',\n        '.join('%s("%s"@)' % (seqp, k) for k in keys), '\n'.join(body))
                 appends.append('verus!{\n' + txt + '}\n')
             elif d.word == 'appendraw':
                 appends.append(d.text + '\n')
@@ -1095,6 +1137,8 @@ class FileSplicer:
                 if len(c) <= ordinal: raise SpliceError('lost anchor: impl %s in %s' % (key, fs.path))
                 self.whole_impls[id(c[ordinal])] = (c[ordinal], d)
                 self.impl_by_id[id(c[ordinal])] = c[ordinal]
+            elif d.word == 'expandmacros':
+                self.report['file_rules'].append({'file': fs.path, 'rule': 'N11', 'text': 'macro_rules! %s expanded in place (%d invocations, tools/macroexp.py)' % (' '.join(d.args), self.n11)})
             else:
                 raise SpliceError('unknown directive %s in %s' % (d.word, fs.path))
 
